@@ -62,6 +62,9 @@ CHECKS = {
  'C17': dict(technique='independent renderer of both protocols from the operation log compared with the library output for every viewer seat + loop closure through the protocol parser',
              text='Held on the generated fixed-limit and no-limit hands: Pluribus line, every S->/<-C message of every seat, and parse-back (same betting, board, stacks, and the same line again).',
              note='Blinds only, equal stacks, known cards (the protocols\' domain).', ref='DESIGN.md §2 C17'),
+ 'C20': dict(technique='round trip through synthetic site logs: engine-played hands rendered by our per-site renderers, imported, compared field by field and replayed',
+             text='Held on the generated hands in all six formats: one history per hand, players in position order, blinds, stacks, betting/board/show actions in raise-to form, replay ending with the original stacks; absurd amounts are reported; multi-hand texts are split correctly.',
+             note='No site corpus offline: renderers follow the site formats as known and otherwise the grammar the importer documents; detects regressions and internal inconsistencies. Known finding decimal_chop_subcent.', ref='DESIGN.md §2 C20'),
 }
 PENDING_REASON = 'check not built yet in this revision (runtime monitor planned, see DESIGN.md §2); not claimed until it exists'
 
